@@ -49,6 +49,7 @@ func newOutbox(conn *net.Conn) *outbox {
 			if err := w.WriteArray(frame); err != nil {
 				log.Println(err)
 			}
+			verifWritten()
 		}
 	}()
 	return o
@@ -58,6 +59,7 @@ func newOutbox(conn *net.Conn) *outbox {
 func (o *outbox) push(frame []resp.Value) {
 	o.mut.Lock()
 	o.queue = append(o.queue, frame)
+	verifQueued()
 	o.mut.Unlock()
 	o.cond.Signal()
 }
